@@ -1,6 +1,6 @@
 """C10 - cw4-stake: stakes are fully backed, weight follows stake, exit only after delay."""
 from ..engine import show, OPTION
-from ..idioms import dispatch, entry_points, loaded_from, nf, walk, response_entries, cell_delta, field_of, NF, decided_ints
+from ..idioms import dispatch, entry_points, loaded_from, nf, walk, response_entries, cell_delta, field_of, NF, decided_ints, order_facts
 from .cw4common import SENDER, BLOCK, HEIGHT, items
 
 ID = "C10"
@@ -76,8 +76,14 @@ def run(ctx):
                 for i, e in sw:
                     K, S = e.key, e.value
                     after_reads = [r for j, r in enumerate(p.effects) if j > i and r.kind == "read" and r.item == MEM and r.key == K]
-                    dec = [c for c in p.conds if c[0][0] == "cmp" and c[0][1] == "lt" and c[0][2] == S and cfg is not None
-                           and c[0][3] == ("field", cfg, "min_bond")]
+                    mb_ = ("field", cfg, "min_bond") if cfg is not None else None
+                    # the decision `new stake < min_bond`, however it was spelled
+                    dec = []
+                    for lo, hi, strict, c in order_facts(p.conds):
+                        if lo == S and hi == mb_ and strict:
+                            dec.append((c, True))
+                        elif lo == mb_ and hi == S and not strict:
+                            dec.append((c, False))
                     good = bool(after_reads) and len(dec) == 1
                     ctx.ob("R10.5", key + "/membership recomputed from the stake just written", good, sites=[e.site],
                            detail="STAKE[%s] written but the membership of that key is not recomputed from the written value "
